@@ -12,6 +12,7 @@ macro_rules! dispatch {
             "C05" => $f(&props::c05::C05 $(, $arg)*),
             "C06" => $f(&props::c06::C06 $(, $arg)*),
             "C07" => $f(&props::c07::C07 $(, $arg)*),
+            "C14" => $f(&props::c14::C14 $(, $arg)*),
             "C15" => $f(&props::c15::C15 $(, $arg)*),
             "C16" => $f(&props::c16::C16 $(, $arg)*),
             "C17" => $f(&props::c17::C17 $(, $arg)*),
